@@ -188,6 +188,26 @@ pub fn mutants(b: &Base, other: &Base, full: bool, rng: &mut Rng, extra_random: 
         for ext in [".", "..", "A", "AA", "AAA", "=", "==", ".A", ".AAAA", "\0", " ", "\n", "-", "_"] {
             push(format!("{}{}", b.token, ext), "suffix-extension", "structure", None);
         }
+        // 4b. LONG extensions and truncations (length checks that wrap: 256, 65536 ...), of the token and of the footer segment
+        for n in [4usize, 64, 252, 255, 256, 257, 260, 512, 768, 1024, 4096, 65536] {
+            let fill: String = std::iter::repeat('A').take(n).collect();
+            push(format!("{}.{}", b.token, fill), "long-suffix-extension", "structure", None);
+            push(format!("{}{}", b.token, fill), "long-extension-of-last-segment", if pt.footer_b64.is_some() { "footer-text" } else { "payload-text" }, None);
+            if let Some(f) = pt.footer_b64 {
+                if f.len() > n {
+                    push(format!("{}{}.{}", hdr, pt.payload_b64, &f[..f.len() - n]), "long-footer-truncation", "footer-text", None);
+                    push(format!("{}{}.{}", hdr, pt.payload_b64, &f[n..]), "long-footer-head-removal", "footer-text", None);
+                }
+                // same-length footer whose tail differs only beyond position n
+                if f.len() > n {
+                    let mut c2: Vec<char> = f.chars().collect();
+                    let last = c2.len() - 1;
+                    c2[last] = if c2[last] == 'A' { 'B' } else { 'A' };
+                    let _ = n;
+                    push(format!("{}{}.{}", hdr, pt.payload_b64, c2.into_iter().collect::<String>()), "footer-last-char", "footer-text", None);
+                }
+            }
+        }
         // 6. move the payload/footer dot
         if let Some(f) = pt.footer_b64 {
             let s: Vec<char> = format!("{}{}", pt.payload_b64, f).chars().collect();
@@ -567,6 +587,7 @@ pub fn run(tier: &str, seed: u64) -> Report {
         (json_msg("hello"), Some("{\"kid\":\"k-1\"}"), Some("implicit"), true),
         (json_msg(&"z".repeat(60)), Some("f"), None, true),
         (json_msg("\u{1F980}\u{e9}"), None, None, true),
+        ("long footer".into(), Some(LONG_FOOTER), None, false),
     ];
     if thorough {
         for i in 0..44 {
@@ -636,4 +657,7 @@ pub fn replay(case: &Value) -> Report {
     r
 }
 
-pub const RULE: &str = "per protocol, authentic base tokens (6 quick / 50 thorough: empty, 1-byte, 20-byte, JSON messages; footer and assertion present/absent) are built with the real library and self-checked; mutants: ALL single-bit flips of the decoded payload, ALL single-character substitutions of the token text over the 64 alphabet characters plus '= + / . space é', every proper prefix, suffix extensions, byte deletion/insertion at the nonce/ciphertext/tag and message/signature boundaries, every position of the payload/footer dot, splices of two authentic tokens, footer swaps (with original and with matching expectation), non-canonical base64 (trailing bits, padding, standard alphabet), ECDSA s/r negation, Ed25519 S+L, seeded random multi-byte edits (thorough: double bit flips in the tag/signature). Each mutant is presented to the core entry point (full sweep) and, for JSON bases, to GenericParser and PasetoParser::default() carrying a logging validator. Verdict per call: Ok with other content, Ok outside the two tolerated classes, a UTF-8/JSON/claim error, a validator log entry, a keystream hook event during a rejected call, or a panic is a violation. distinct_nontrivial = distinct (protocol, layer, operator, region) tuples whose mutant passed segment/header/base64 checks and was rejected by the cryptographic check";
+/// 900 bytes -> 1200 base64 characters: room for truncations by 256, 512, 768 and 1024 characters
+const LONG_FOOTER: &str = "{\"kid\":\"0123456789abcdefghijklmnopqrstuvwxyzABCDEFGHIJKLMNOPQRSTUVWXYZ0123456789abcdefghijklmnopqrstuvwxyzABCDEFGHIJKLMNOPQRSTUVWXYZ0123456789abcdefghijklmnopqrstuvwxyzABCDEFGHIJKLMNOPQRSTUVWXYZ0123456789abcdefghijklmnopqrstuvwxyzABCDEFGHIJKLMNOPQRSTUVWXYZ0123456789abcdefghijklmnopqrstuvwxyzABCDEFGHIJKLMNOPQRSTUVWXYZ0123456789abcdefghijklmnopqrstuvwxyzABCDEFGHIJKLMNOPQRSTUVWXYZ0123456789abcdefghijklmnopqrstuvwxyzABCDEFGHIJKLMNOPQRSTUVWXYZ0123456789abcdefghijklmnopqrstuvwxyzABCDEFGHIJKLMNOPQRSTUVWXYZ0123456789abcdefghijklmnopqrstuvwxyzABCDEFGHIJKLMNOPQRSTUVWXYZ0123456789abcdefghijklmnopqrstuvwxyzABCDEFGHIJKLMNOPQRSTUVWXYZ0123456789abcdefghijklmnopqrstuvwxyzABCDEFGHIJKLMNOPQRSTUVWXYZ0123456789abcdefghijklmnopqrstuvwxyzABCDEFGHIJKLMNOPQRSTUVWXYZ0123456789abcdefghijklmnopqrstuvwxyzABCDEFGHIJKLMNOPQRSTUVWXYZ0123456789abcdefghijklmnopqrstuvwxyzABCDEFGHIJKLMNOPQRSTUVWXYZ0123456789abcdefghijklmnopqrstuvwxyzABCDEFGHIJKLMNOPQRSTUVWXYZ0123456789\"}";
+
+pub const RULE: &str = "per protocol, authentic base tokens (6 quick / 50 thorough: empty, 1-byte, 20-byte, JSON messages; footer and assertion present/absent) are built with the real library and self-checked; mutants: ALL single-bit flips of the decoded payload, ALL single-character substitutions of the token text over the 64 alphabet characters plus '= + / . space é', every proper prefix, suffix extensions (short, and long ones of 4..65536 characters incl. exact multiples of 256 on the token and on a 1200-character footer segment, with matching long truncations), byte deletion/insertion at the nonce/ciphertext/tag and message/signature boundaries, every position of the payload/footer dot, splices of two authentic tokens, footer swaps (with original and with matching expectation), non-canonical base64 (trailing bits, padding, standard alphabet), ECDSA s/r negation, Ed25519 S+L, seeded random multi-byte edits (thorough: double bit flips in the tag/signature). Each mutant is presented to the core entry point (full sweep) and, for JSON bases, to GenericParser and PasetoParser::default() carrying a logging validator. Verdict per call: Ok with other content, Ok outside the two tolerated classes, a UTF-8/JSON/claim error, a validator log entry, a keystream hook event during a rejected call, or a panic is a violation. distinct_nontrivial = distinct (protocol, layer, operator, region) tuples whose mutant passed segment/header/base64 checks and was rejected by the cryptographic check";
